@@ -123,7 +123,10 @@ Definition text_of (sec : rsec) (prev : option Z) (xnum : N) (text : bytes) : Pr
       text = fmt_N xnum ++ sepA ++ fmt_N 0 ++ sepB ++ kw_obj ++ s1
              ++ fst (rv (VDict ((d ++ prev_entry prev) ++ [(k_Length, VInt (Z.of_nat (length (encode_stm_subs w0 w1 w2 subs))))])) cd)
              ++ s2 ++ kw_stream ++ e0 ++ encode_stm_subs w0 w1 w2 subs ++ e1 ++ Seq.kw_endstream ++ s3 ++ Seq.kw_endobj
-  | RHybrid _ _ _ _ _ => False
+  | RHybrid _ subs so _ tr =>
+    exists e0 rsubs e1 cd,
+      subs = map rsub_subsection rsubs /\
+      text = render_table e0 rsubs e1 ++ fst (rv (VDict (tr ++ xrefstm_entry so ++ prev_entry prev)) cd)
   end.
 
 (* what follows the section: an EOL choice (or nothing), startxref, the offset, %%EOF *)
